@@ -178,3 +178,34 @@ def arg_by_name(prog, t, name, default_index):
             if callee.local_name(i) == name and i - 1 < len(t["args"]):
                 return t["args"][i - 1]
     return t["args"][default_index] if default_index < len(t["args"]) else None
+
+
+def is_min_path(p):
+    """`std::cmp::min(a, b)` and `a.min(b)` (Ord::min) are the same function of the same two operands."""
+    p = p or ""
+    return p in ("core::cmp::min", "core::cmp::Ord::min") or (p.endswith("::min") and "Ord" in p and "Iterator" not in p)
+
+
+def is_max_path(p):
+    p = p or ""
+    return p in ("core::cmp::max", "core::cmp::Ord::max") or (p.endswith("::max") and "Ord" in p and "Iterator" not in p)
+
+
+def is_min_call(e):
+    return isinstance(e, tuple) and len(e) > 2 and e[0] == "call" and is_min_path(e[1]) and len(e[2]) == 2
+
+
+def is_max_call(e, prog=None, depth=2):
+    """A call of max - directly or through a local function that does nothing but return one (`max_useable_fuzz`)."""
+    if isinstance(e, tuple) and len(e) > 2 and e[0] == "call" and is_max_path(e[1]) and len(e[2]) == 2:
+        return True
+    if prog is not None and depth and isinstance(e, tuple) and len(e) > 2 and e[0] == "call":
+        from . import dataflow as df
+        f = prog.fns.get(e[1])
+        if f is None:
+            c = [g for g in prog.fns.values() if g.id.endswith(e[1]) or e[1].endswith(g.id)]
+            f = c[0] if len(c) == 1 else None
+        if f is not None:
+            rets = df.all_def_exprs(f, 0)
+            return len(rets) == 1 and is_max_call(rets[0], prog, depth - 1)
+    return False
